@@ -185,7 +185,7 @@ def edit_arb(n, k=None, tag=None, want=None, tier="quick"):
 
 for n in range(0, 4):
     OBLIGATIONS.append(edit_arb(n))
-OBLIGATIONS.append(edit_arb(4, k=2))
+OBLIGATIONS.append(edit_arb(4, k=2, tier="thorough"))
 OBLIGATIONS.append(edit_arb(11, k=1, tag=5, want=5))
 for n in range(5, 9):
     OBLIGATIONS.append(edit_arb(n, k=2, tier="thorough"))
@@ -261,8 +261,8 @@ META = {
         "other numbers concrete representatives of varint lengths 1..10; levels 0..6 symbolic where focused",
         "edit import / reference decoder: the same records; a fully symbolic number or level only in records of one "
         "or two fields; records of up to 10 fields with concrete numbers and symbolic keys",
-        "edit import on arbitrary bytes: every input of 0..4 bytes (>= 4: at most 2 fields), 11 bytes starting "
-        "with a compact-pointer tag (1 field); thorough tier: 5..8, 12, 22, 24 bytes",
+        "edit import on arbitrary bytes: every input of 0..3 bytes, 11 bytes starting with a compact-pointer tag "
+        "(1 field); thorough tier: 4..8 bytes (at most 2 fields), 10, 12, 22, 24 bytes (1 field)",
         "ldb_encode_int: every number of <= 6 decimal digits (thorough: 7 digits)",
         "ldb_set_current_file: descriptor numbers 1, 999999, 1000000, 2^32, 2^64-1 (thorough: 5 more); each env call "
         "fails or not with any non-zero code",
